@@ -668,6 +668,8 @@ func init() {
 					} else {
 						vals = []int{0, 1, 9, 10, 59, 60, 61, 120, N / 2, N - 61, N - 60, N - 10, N - 1, N + 1, N + 10, N + 60, 2 * N}
 					}
+					// out of any sensible range: negative, and so large that size arithmetic overflows
+					vals = append(vals, -1, -60, -61, 1<<31, 1<<40, 9000000000000000000, 9223372036854775807)
 					for _, v := range vals {
 						for _, crlf := range []bool{false, true} {
 							eval(c07Case{Kind: "scan", Seed: name, Mut: "declen", A: v, CRLF: crlf}, 400000+v)
